@@ -49,7 +49,10 @@ impl Reservoir {
         if idx < self.values.len() {
             self.values[idx].store(value.to_bits(), Relaxed);
         } else {
-            let maybe_idx = fastrand(idx);
+            // `idx` is the number of values seen before this one, so this is value number `idx + 1`: it
+            // must replace a retained value with probability `capacity / (idx + 1)` (Algorithm R), and
+            // the range must never be empty (a zero-capacity reservoir gets here with `idx == 0`).
+            let maybe_idx = fastrand(idx.saturating_add(1));
             if maybe_idx < self.values.len() {
                 self.values[maybe_idx].store(value.to_bits(), Relaxed);
             }
